@@ -180,10 +180,11 @@ class Run:
         return self.trace
 
 
-def wind_down(r: "Run", do=None):
+def wind_down(r: "Run", do=None, early: bool = True):
     """An environment that eventually answers every hook, closes every connection and delivers every close, so that
     the end-of-behaviour obligation is judged even when a behaviour stopped early or the code diverged from the
-    model's behaviour."""
+    model's behaviour.  early: judge at the first moment everything is closed (before the ConnectionClosed echoes of
+    closes by command are delivered); otherwise deliver the echoes first."""
     env = r.env
     do = do or r.step
     for _ in range(80):
@@ -193,6 +194,8 @@ def wind_down(r: "Run", do=None):
             do("HookDone", "pass")
         elif env.drv.opens_pending():
             do("OpenDone", "fail")
+        elif early and env.quiescent():
+            do("Quiesce")
         elif env.readable(env.client):
             do("ClientFin")
         elif env.echo_pending(env.client):
@@ -299,7 +302,7 @@ def run_random(seed: int, n: int, nflows: int):
             st["resp"] = "body" if x in ("cl", "chunked", "eof", "badval") else "idle"
         elif a == "ServerEnd":
             st["resp"] = "idle"
-    wind_down(r, do)
+    wind_down(r, do, early=rng.random() < 0.5)
     return r.finish(), ops
 
 
@@ -317,8 +320,9 @@ class Check(core.PropertyCheck):
         "hooks are observed as StartHook commands at the sans-io boundary; flows are numbered by first appearance",
         "vf.httpdrv.HttpEnv plays ConnectionHandler: connection state bits as in server.py, ConnectionClosed is "
         "delivered once per connection (peer EOF, or echo after a close by command, or teardown after the client left)",
-        "quiescent = client and all server connections closed (a server that sent EOF and is kept writable counts), "
-        "no hook or connect outstanding; flow.live is read from the flow objects passed to the hooks",
+        "quiescent = client and all server connections closed by state (closed by command counts before its "
+        "ConnectionClosed echo is delivered; a server that sent EOF and is kept writable counts), no hook or connect "
+        "outstanding; flow.live is read from the flow objects passed to the hooks",
         "regular mode, HTTP/1 on both sides, plain http; CONNECT, upgrades, HTTP/2/3 are not exercised",
     )
     PROCS = 1
